@@ -85,21 +85,36 @@ def run(bid, checks):
     d = os.path.join(SEEDED, bid)
     meta = json.load(open(os.path.join(d, "meta.json")))
     checks = checks or [meta["breaks_property"]]
-    rc, o = sh("git -C /repo status --porcelain")
-    assert o.strip() == "", "/repo not clean: " + o
-    rc, o = sh("git -C /repo apply %s/patch.diff" % d)
+    # SEEDED_WORKTREE=1: apply the patch in a scratch worktree of /repo HEAD and point the checks at it with
+    # VERIF_REPO (same code path: the checks copy <repo>/code_data to their scratch tree) - used while a long
+    # background run reads /repo itself.  Default: apply to /repo and undo straight afterwards.
+    use_wt = bool(os.environ.get("SEEDED_WORKTREE"))
+    repo = "/repo"
+    if use_wt:
+        repo = "/tmp/wt/apply-%s" % bid
+        sh("git -C /repo worktree remove --force %s" % repo)
+        rc, o = sh("git -C /repo worktree add -q --detach %s HEAD" % repo)
+        assert rc == 0, o
+    rc, o = sh("git -C %s status --porcelain" % repo)
+    assert o.strip() == "", "%s not clean: %s" % (repo, o)
+    rc, o = sh("git -C %s apply %s/patch.diff" % (repo, d))
     assert rc == 0, o
     try:
         for c in checks:
             t0 = time.time()
             env = dict(os.environ)
+            if use_wt:
+                env["VERIF_REPO"] = repo
             rc, o = sh("./check %s --tier quick" % c, cwd=VERIF, env=env, timeout=1800)
             fps = re.findall(r"fingerprint=(\S+)", o)
             meta["checks_run"][c] = {"exit": rc, "violation_fingerprints": fps[:8], "wall_s": round(time.time() - t0, 1),
                                      "cmd": "git -C /repo apply seeded/%s/patch.diff && ./check %s --tier quick ; git -C /repo checkout -- ." % (bid, c)}
             print("%s under %s: exit=%d %s" % (bid, c, rc, fps[:4]))
     finally:
-        sh("git -C /repo checkout -- .")
+        if use_wt:
+            sh("git -C /repo worktree remove --force %s" % repo)
+        else:
+            sh("git -C /repo checkout -- .")
         sh("git -C %s checkout -q -- evidence" % VERIF)
     with open(os.path.join(d, "meta.json"), "w") as f:
         json.dump(meta, f, indent=1)
